@@ -550,6 +550,25 @@ def templates():
                         ["act8", "plain", "acte4"][p.rng.integers(3)])
         return lambda: torch.conv2d(a, w)
 
+    @reg("mm_int_route")
+    def _(p, a):
+        # operands sized for the integer GEMM route (rows > 16, every size a multiple of 8), per-tensor or per-axis on
+        # either side - scales varying along the contraction included
+        n, m, q_ = int(p.rng.choice([24, 32, 40])), int(p.rng.choice([8, 16, 32])), int(p.rng.choice([8, 16, 24]))
+        kinds = ["act8", "w8a0", "w8a-1", "acte4", "wf8a0", "wf8a-1", "plain"]
+        lk = kinds[p.rng.integers(5 if p.rng.random() < 0.7 else len(kinds))]
+        rk = kinds[p.rng.integers(5 if p.rng.random() < 0.7 else len(kinds))]
+        left, _k1 = p.fresh((n, m), lk)
+        right, _k2 = p.fresh((m, q_), rk)
+        if not hasattr(left, "qtype") and not hasattr(right, "qtype"):
+            left, _k1 = p.fresh((n, m), "act8")
+        c = p.rng.integers(3)
+        if c == 0:
+            return lambda: torch.mm(left, right)
+        if c == 1:
+            return lambda: torch.matmul(left, right)
+        return lambda: left @ right
+
     @reg("to_other_dtype")
     def _(p, a):
         # always a real dtype change: refused (ValueError) for packed low-bit tensors, a rescale for 8-bit ones
